@@ -132,6 +132,14 @@ PROPERTIES = {
                 "operands of guard expressions are read without side effects (OperandCall oracle)",
                 "build_expression / parse_boolean_expr (AST walk) and Listeners.build are not under contract yet: the AST->closure mapping is covered by the bounded lexical layer only; the five combinator closures, the guard conjunction (all/async_all, expected_value) and CallbacksRegistry.check are proved",
                 "operator.eq/ne/gt/ge/lt/le are Python's comparisons (CMP)"]},
+    "C17": {"assumptions": [
+        "copy.deepcopy / pickle protocol: the dict returned by __getstate__ is deep-copied and __setstate__ runs on a blank instance (so original and clone share no mutable state)",
+        "_register_callbacks / add_listener / _get_engine / async_or_sync / engine.start enter through abstract contracts read off their bodies (what they do to has_async_callbacks, the listeners and the pending activation)",
+        "behavioural equality after the round trip follows from equal views (same class, stored value, options, listeners, engine kind, pending activation) by the engine contracts of C01-C04"]},
+    "C18": {"assumptions": [
+        "pydot: Node/Edge store what they are given, add_node/add_edge append (ghost origin/count fields)",
+        "machine is an instance; _get_graph, _state_actions and label strings are styling only (assumed)",
+        "WF(cls): states pairwise distinct, a transition object sits at one position of one state's list"]},
     "C09": {"assumptions": [
         "REACH is the least relation closed under 'start' and 'transition target': the induction principle is applied once, to the set yielded by visit_connected_states (Visit.derived); closedness of that set is a discharged postcondition",
         "State objects are compared by identity in sets/dicts (State.__hash__/__eq__ consistent, (name,id) pairs distinct)",
